@@ -30,6 +30,7 @@ LEVEL = "model_checking"
 JVM_ENV = {"JAVA_TOOL_OPTIONS": "-Xss64m"}
 MODE_WORD = {"F": "off", "N": "auto", "T": "required"}
 SCALE = float(os.environ.get("C06_SCALE", "1") or 1)      # smoke-test knob; registered commands leave it at 1
+PARTS = set((os.environ.get("C06_PARTS") or "mc,pack,split,e2e").split(","))   # development knob; registered commands leave it unset
 
 _START = threading.Lock()
 
@@ -364,6 +365,21 @@ def report_simple(chk, rejected, kind):
             chk.reject("split:" + c, what, {"kind": "split", "state": {k: t[k] for k in ("tag", "lk", "rec", "sem")}, "rank": t.get("rank")})
 
 
+def preload():
+    """import everything the forked workers need (the check runs without byte-code caches) and build the base fonts"""
+    import fontTools.ttLib, fontTools.fontBuilder, fontTools.feaLib.builder, fontTools.feaLib.parser, fontTools.otlLib.builder  # noqa
+    import fontTools.otlLib.optimize.gpos, fontTools.ttLib.tables.otTables, fontTools.ttLib.tables.otConverters, fontTools.subset  # noqa
+    from fontTools.ttLib import TTFont
+    from . import hb, otl_project, c11, c06_e2e, c06_gen, c06_pack, c06_split, fonts  # noqa
+    import io
+
+    for tag in ("GSUB", "GPOS", "GDEF", "head", "hhea", "maxp", "OS/2", "hmtx", "cmap", "name", "post", "glyf", "loca", "CFF ", "fvar", "gvar", "HVAR"):
+        fontTools.ttLib.getTableClass(tag)
+    if "e2e" in PARTS:
+        for n in sorted({c["nglyphs"] for c in c06_gen.cases("thorough") if c.get("full", True)}):
+            c06_e2e.base_font_bytes(c06_gen.glyph_order(n))
+
+
 def run(chk):
     from . import c06_gen
 
@@ -374,13 +390,14 @@ def run(chk):
                 "resolution / HarfBuzz-side split happened]; graphs and states are the reachable states of the TLC builder machines, "
                 "fonts are the corpus and the generated overflowing tables")
     thorough = chk.tier == "thorough"
+    preload()
     results = {}
-    threads, errs = run_models(chk, results)
+    threads, errs = run_models(chk, results) if "mc" in PARTS else ([], [])
 
     # ---- (V) cases run while TLC model-checks -------------------------------------------------
     t0 = time.time()
-    gens = c06_gen.cases(chk.tier)
-    cases = corpus_cases(chk) + gens
+    gens = c06_gen.cases(chk.tier) if "e2e" in PARTS else []
+    cases = (corpus_cases(chk) + gens) if "e2e" in PARTS else []
     chk.log("%d cases (%d generated) ..." % (len(cases), len(gens)))
     outs = run_cases(chk, cases)
     chk.log("cases done in %.0fs" % (time.time() - t0))
@@ -389,13 +406,14 @@ def run(chk):
         t.join()
     if errs:
         raise errs[0]
-    stuck_found = model_notes(chk, results)
-    chk.log("models: packer %d states, loop %d states; stuck-shape counterexample found: %s"
-            % (results["pack"].distinct, chk.notes["mc_repack"]["distinct_states"], stuck_found))
+    if "mc" in PARTS:
+        stuck_found = model_notes(chk, results)
+        chk.log("models: packer %d states, loop %d states; stuck-shape counterexample found: %s"
+                % (results["pack"].distinct, chk.notes["mc_repack"]["distinct_states"], stuck_found))
 
     # ---- (R) ------------------------------------------------------------------------------------
-    graphs = gen_payloads(results["pack"])
-    pack_traces = run_pack_replay(chk, graphs)
+    graphs = gen_payloads(results["pack"]) if "mc" in PARTS and "pack" in PARTS else []
+    pack_traces = run_pack_replay(chk, graphs) if "pack" in PARTS else []
     rej, _x, _r = judge_parallel(chk, "Trace_C06", pack_traces, "Trace_C06 pack", per=3000)
     report_simple(chk, rej, "pack")
     chk.traces_validated += len(pack_traces) - len(rej)
@@ -403,7 +421,7 @@ def run(chk):
     for k, v in results.items():
         if k.startswith("repack_"):
             states += gen_payloads(v)
-    split_traces = run_split_replay(chk, states)
+    split_traces = run_split_replay(chk, states) if "split" in PARTS else []
     rej, _x, _r = judge_parallel(chk, "Trace_C06", split_traces, "Trace_C06 split", per=250)
     report_simple(chk, rej, "split")
     chk.traces_validated += len(split_traces) - len(rej)
